@@ -617,7 +617,7 @@ def validate(ctx, module, traces, cfg, what, describe, prepare=lambda t: t, max_
     pending = [n for n in range(len(traces)) if n not in accepted]
     reported = 0
     rounds = 0
-    while pending and rounds < 12 and reported < max_report:
+    while pending and rounds < 40 and reported < max_report:
         rounds += 1
         n = pending[0]
         far, violated, tail = ctx.diagnose_trace(module, prepared[n], cfg)
@@ -627,14 +627,19 @@ def validate(ctx, module, traces, cfg, what, describe, prepare=lambda t: t, max_
             accepted.add(n)           # only starved by an earlier violation in the batch
         else:
             clause = ",".join(violated) if violated else "no-matching-action"
-            at = evs[far - 1] if ("ev" in prepared[n] and 0 < far <= len(evs)) else None
+            # rejected: the event that no action matches is number `far`; invariant violated: the state after
+            # consuming event far-1 is the bad one
+            k = far - 1 if violated else far
+            at = evs[k - 1] if ("ev" in prepared[n] and 0 < k <= len(evs)) else None
             if reported < max_report:
-                ctx.violation(f"{what}:{clause}:{describe(traces[n])}"[:400],
+                # a listed known finding (matched by key prefix) does not use up the report budget
+                new = ctx.violation(f"{what}:{clause}:{describe(traces[n])}"[:400],
                               f"{what}: execution of the real code is not accepted by {module} ({clause}); matched "
-                              f"{max(far - 1, 0)}/{len(evs)} events; stuck at event {far}: {json.dumps(at)[:300]}; "
+                              f"{max(far - 1, 0)}/{len(evs)} events; {'clause false after' if violated else 'stuck at'} event {k}: "
+                              f"{json.dumps(at)[:300]}; "
                               f"input: {describe(traces[n])[:600]}",
                               {"module": module, "trace": traces[n], "stuck_at": far, "violated": violated, "tlc_tail": tail})
-                reported += 1
+                reported += 1 if new else 0
         pending = pending[1:]
         if pending and (violated or not done):
             # the rest may have been starved by this one: validate them again as a batch
@@ -929,6 +934,9 @@ def replay_and_validate(ctx, scripts, naturals, what, chunk=25):
         ctx.note_case(("script", describe_script(s)), script_relevance(s))
     for t in ntraces:
         ctx.note_case(("natural", json.dumps(t["params"], sort_keys=True)), t["stats"]["attempts"] > 0)
-    sacc = validate(ctx, "StepCtlTrace", straces, exact_cfg(), f"{what}/scripted", describe_trace, prepare=strip_trace) if straces else set()
+    sacc = set()
+    for lo in range(0, len(straces), 8000):      # bounded batches: the trace file is read into TLC's heap
+        part = validate(ctx, "StepCtlTrace", straces[lo:lo + 8000], exact_cfg(), f"{what}/scripted", describe_trace, prepare=strip_trace)
+        sacc |= {lo + n for n in part}
     nacc = validate(ctx, "StepCtlTrace", ntraces, flags_cfg(), f"{what}/natural", describe_trace, prepare=strip_trace) if ntraces else set()
     return straces, sacc, ntraces, nacc
